@@ -181,8 +181,32 @@ pub async fn reflink_async(cache: &Path, sri: &Integrity, to: &Path) -> Result<(
     reflink_unchecked(cache, sri, to)
 }
 
+/// When the destination already *is* the content file (a hard link made by an
+/// earlier `hard_link`, or the target of a `link_to` entry), copying would
+/// truncate the source before reading it. Returns the length of the file in
+/// that case: the data is where the caller wants it already.
+#[cfg(unix)]
+fn already_in_place(cpath: &Path, to: &Path) -> Option<u64> {
+    use std::os::unix::fs::MetadataExt;
+    let from = std::fs::metadata(cpath).ok()?;
+    let dest = std::fs::metadata(to).ok()?;
+    if from.is_file() && from.dev() == dest.dev() && from.ino() == dest.ino() {
+        Some(from.len())
+    } else {
+        None
+    }
+}
+
+#[cfg(not(unix))]
+fn already_in_place(_cpath: &Path, _to: &Path) -> Option<u64> {
+    None
+}
+
 pub fn copy_unchecked(cache: &Path, sri: &Integrity, to: &Path) -> Result<u64> {
     let cpath = path::content_path(cache, sri);
+    if let Some(len) = already_in_place(&cpath, to) {
+        return Ok(len);
+    }
     std::fs::copy(cpath, to).with_context(|| {
         format!(
             "Failed to copy cache contents from {} to {}",
@@ -221,6 +245,9 @@ pub async fn copy_unchecked_async<'a>(
     to: &'a Path,
 ) -> Result<u64> {
     let cpath = path::content_path(cache, sri);
+    if let Some(len) = already_in_place(&cpath, to) {
+        return Ok(len);
+    }
     crate::async_lib::copy(&cpath, to).await.with_context(|| {
         format!(
             "Failed to copy cache contents from {} to {}",
